@@ -1034,6 +1034,11 @@ where
         crate::verif::VerifSketch(self.frequency_sketch.verif_clone())
     }
 
+    /// The length of the live frequency sketch's table, without copying it.
+    pub fn verif_sketch_table_len(&self) -> usize {
+        self.frequency_sketch.verif_table_len()
+    }
+
     /// Takes a snapshot of the internal data structures and walks the deques.
     pub fn verif_snapshot(
         &self,
